@@ -239,16 +239,20 @@ Print Assumptions C09_batch_alignment.
 
 (* 7. Chain id: a configured id (>= 0) is used as is and the backend is not asked; otherwise exactly
       one net_version query is made at start and its result (string or number, through the integer
-      parser; truncated to 64 bits like Go's Int64(), the identity below 2^63) is the chain id; if
+      parser; Go's Int64(), the identity below 2^63) is the chain id; if
       the query fails the process does not come up.  (Theorems 1 and 2 hold for every chain id, in
-      particular for the one Start returns.) *)
+      particular for the one Start returns.)
+      Referee round: the guard [Z.of_N n < 2^63] in the third clause is new.  Before fix 0c95e98 of /repo
+      a larger result was truncated to its low 64 bits (2^64+5 => 5, 2^63 => a negative id) and the
+      clause held without the guard for that behaviour; the repaired code refuses such a result
+      (C09_chain_id_decided, section 10k), and the model is the model of the repaired code. *)
 Theorem C09_chain_id :
   forall parse_int backend,
     (forall c, (0 <= c)%Z -> Start parse_int backend c = (Ok c, []))
     /\ (forall c, (c < 0)%Z -> snd (Start parse_int backend c) = [net_version_frame])
     /\ (forall c echo v n,
           (c < 0)%Z -> backend net_version_frame = reply_result echo v -> v <> JNull ->
-          dec_hexint parse_int v = Ok n ->
+          dec_hexint parse_int v = Ok n -> (Z.of_N n < 9223372036854775808)%Z ->
           Start parse_int backend c = (Ok (wrap64 (Z.of_N n)), [net_version_frame]))
     /\ (forall z, (0 <= z < 9223372036854775808)%Z -> wrap64 z = z)
     /\ (forall c, (c < 0)%Z -> fst (CallRPC backend (bs "net_version") []) = inr tt ->
@@ -1048,3 +1052,536 @@ Proof.
       right. exists (ghex gA ++ bs ".key"). repeat split; vm_compute; reflexivity.
     + vm_compute. reflexivity.
 Qed.
+
+(* ================= 10. Answers to the referee report (design/reviews/C09.md) =================
+   Proofs in Rpc/RefReply.v, RefSend.v, RefWire.v, RefMore.v, RefTotal.v.  Nothing above is changed.
+   Vocabulary added:
+     reply_value rep            which value, if any, the backend's reply reports to the proxy — a function of the
+                                reply alone (status, content type, body);
+     nonce_decision tx a        the nonce that gets signed — from the request, or from reply_value of the
+                                backend's answer to eth_getTransactionCount(a,"pending"): None = no nonce to be
+                                had, Some None = the backend said null (nonce left unset = 0; DECLARED, props/C09.json),
+                                Some (Some n) = supplied or reported;
+     chain_decision c           the chain id Start comes up with (None = does not come up); a null result gives 0,
+                                a result of 2^63 or more is refused (fix 0c95e98);
+     internal_error rq          the proxy's fresh -32603 error object under rq's id, err = true, the one frame;
+     reply_well_formed id resp err / tree_answers id err tree
+                                the reply carries id and a result (err = false) or an error object with a
+                                non-zero code (err = true) — as a struct / as the JSON tree the client reads. *)
+From FFS Require Import Rpc.RefReply Rpc.RefSend Rpc.RefWire Rpc.RefMore Rpc.RefTotal.
+From FFS Require Import Base.Keccak.
+
+(* 10a (ISSUE 1). Whatever the backend does — any reply or none — SyncRequest's response carries the caller's
+        id, exactly one frame was sent, and the response has a result and no error of non-zero code (err = false)
+        or an error object with a non-zero code (err = true).  There is no third shape. *)
+Theorem C09_reply_shape_any_backend :
+  forall backend rq resp err frames,
+    SyncRequest backend rq = (resp, err, frames) ->
+    rs_id resp = rq_id rq /\ frames = [frame_of rq] /\
+    (err = false -> (exists v, rs_result resp = Some v) /\ error_code_nonzero resp = false) /\
+    (err = true -> exists e, rs_error resp = Some e /\ e_code e <> 0%Z).
+Proof. exact sync_reply_shape. Qed.
+Print Assumptions C09_reply_shape_any_backend.
+
+(* 10b (ISSUE 1). The uncooperative backends, one by one (the branches of the repaired defects D09a / D09c):
+        transport failure; invalid JSON on 2xx or >= 400; HTTP >= 400 with a non-JSON content type; 2xx with the
+        literal null; 2xx with JSON of the wrong type; HTTP >= 400 with JSON but no JSON-RPC error of non-zero
+        code — each: the fresh -32603 error object under the caller's id, err = true, the one frame. *)
+Theorem C09_uncooperative_backend :
+  forall backend rq,
+    let rep := backend (frame_of rq) in
+    (rep = BConnFail -> SyncRequest backend rq = internal_error rq) /\
+    (forall s, rep = BHttp s BBadJson -> (s =? 204)%N = false -> is_success s || is_error s = true ->
+               SyncRequest backend rq = internal_error rq) /\
+    (forall s, rep = BHttp s BNotJson -> is_error s = true -> SyncRequest backend rq = internal_error rq) /\
+    (forall s, rep = BHttp s (BJson JNull) -> (s =? 204)%N = false -> is_success s = true ->
+               SyncRequest backend rq = internal_error rq) /\
+    (forall s t, rep = BHttp s (BJson t) -> (s =? 204)%N = false -> is_success s = true -> t <> JNull ->
+                 snd (decode_response t zero_response) = true -> SyncRequest backend rq = internal_error rq) /\
+    (forall s t, rep = BHttp s (BJson t) -> is_error s = true ->
+                 error_code_nonzero (fst (decode_response t zero_response)) = false ->
+                 SyncRequest backend rq = internal_error rq).
+Proof. exact sync_uncooperative. Qed.
+Print Assumptions C09_uncooperative_backend.
+
+(* 10c (declared behaviour, not in the property text). HTTP 204, and a non-JSON content type on a status below
+        400, are read as the result null: the reply is {"jsonrpc":"","id":id,"result":null}, err = false. *)
+Theorem C09_degenerate_success :
+  forall backend rq,
+    let rep := backend (frame_of rq) in
+    (forall s b, rep = BHttp s b -> (s =? 204)%N = true ->
+                 SyncRequest backend rq = (mkResp [] (rq_id rq) (Some JNull) None [] None, false, [frame_of rq])) /\
+    (forall s, rep = BHttp s BNotJson -> is_error s = false ->
+               SyncRequest backend rq = (mkResp [] (rq_id rq) (Some JNull) None [] None, false, [frame_of rq])).
+Proof. exact sync_degenerate_success. Qed.
+Print Assumptions C09_degenerate_success.
+
+(* 10d (ISSUE 1, all methods). Every request carrying an id — whatever the method, the backend and the wallet —
+        is answered with a well-formed reply: the id, and a result or an error object with a non-zero code. *)
+Theorem C09_reply_well_formed :
+  forall parse_int accounts sign_with backend chain rq id o,
+    rq_id rq = Some id -> processRPC parse_int accounts sign_with backend chain (Some rq) = Ok o ->
+    exists resp, o_resp o = Some resp /\
+      rs_id resp = Some id /\
+      (o_err o = false -> exists v, rs_result resp = Some v) /\
+      (o_err o = true -> exists e, rs_error resp = Some e /\ e_code e <> 0%Z).
+Proof. exact reply_shape. Qed.
+Print Assumptions C09_reply_well_formed.
+
+(* 10e (ISSUE 1 + 5, on the wire).  For ANY tree the lexer yields and whatever request it decodes to (absent
+        params, any member order, duplicate or case-folded member names): the HTTP reply is 200/500 with the
+        marshalled response, and that tree carries the id and a result (200) or an error object with a non-zero
+        code (500).  For a batch: the same at every position, under every completion order. *)
+Theorem C09_reply_on_the_wire :
+  forall parse_int lex accounts sign_with backend chain,
+    (forall body order t rq id o,
+       (b2n (sniffFirstByte body) =? 91)%N = false ->
+       lex body = Some t -> decode_request t = Ok rq -> rq_id rq = Some id ->
+       processRPC parse_int accounts sign_with backend chain (Some rq) = Ok o ->
+       rpcHandler parse_int lex accounts sign_with backend chain body order
+       = Ok (if o_err o then 500%N else 200%N, response_opt_tree (o_resp o), [o_frames o]) /\
+       tree_answers id (o_err o) (response_opt_tree (o_resp o)))
+    /\
+    (forall body t members outs order,
+       (b2n (sniffFirstByte body) =? 91)%N = true ->
+       lex body = Some t -> decode_batch t = Ok members -> members <> [] ->
+       run_members parse_int accounts sign_with backend chain members = Ok outs ->
+       Permutation order (seq 0 (length members)) ->
+       exists status trees traces,
+         rpcHandler parse_int lex accounts sign_with backend chain body order = Ok (status, JArr trees, traces) /\
+         Forall2 (fun m tree => forall rq id, m = Some rq -> rq_id rq = Some id -> exists err, tree_answers id err tree)
+                 members trees).
+Proof.
+  intros parse_int lex accounts sign_with backend chain. split.
+  - exact (reply_wire parse_int lex accounts sign_with backend chain).
+  - exact (reply_batch_wire parse_int lex accounts sign_with backend chain).
+Qed.
+Print Assumptions C09_reply_on_the_wire.
+
+(* what tree_answers says, unfolded *)
+Theorem C09_tree_answers_means :
+  forall id err tree,
+    tree_answers id err tree <->
+    tree_member (bs "id") tree = Some id /\
+    (err = false -> exists v, tree_member (bs "result") tree = Some v) /\
+    (err = true -> exists e, e_code e <> 0%Z /\ tree_member (bs "error") tree = Some (error_tree e)).
+Proof. exact (fun id err tree => iff_refl _). Qed.
+Print Assumptions C09_tree_answers_means.
+
+(* 10f (ISSUE 2). "Backend-reported", defined on the backend's reply and not through the model: CallRPC yields
+        exactly reply_value of the reply to the frame it sent; hence the nonce_source of theorems 1 / 2 / 8 / 9 is
+        nonce_decision. *)
+Theorem C09_backend_reported_means :
+  (forall backend m ps,
+     CallRPC backend m ps = (match reply_value (backend (mkFrame m ps)) with Some v => inl v | None => inr tt end,
+                             [mkFrame m ps])) /\
+  (forall echo v, reply_value (reply_result echo v) = Some v) /\
+  (forall parse_int backend tx a nonce,
+     nonce_source parse_int backend tx a nonce (pre_of tx a) <-> nonce_decision parse_int backend tx a = Some nonce).
+Proof. exact (conj CallRPC_value (conj reply_value_result nonce_source_iff)). Qed.
+Print Assumptions C09_backend_reported_means.
+
+(* reply_value / nonce_decision / chain_decision, unfolded so that they can be read here *)
+Theorem C09_decisions_mean :
+  (forall rep, reply_value rep =
+     match rep with
+     | BConnFail => None
+     | BHttp s body =>
+         if (s =? 204)%N then Some JNull
+         else if is_error s then None
+         else match body with
+              | BNotJson => Some JNull
+              | BBadJson => if is_success s then None else Some JNull
+              | BJson t =>
+                  if is_success s then
+                    match t with
+                    | JNull => None
+                    | _ => let '(r, bad) := decode_response t zero_response in
+                           if bad then None
+                           else if error_code_nonzero r then None
+                           else Some (match rs_result r with Some v => v | None => JNull end)
+                    end
+                  else Some JNull
+              end
+     end) /\
+  (forall parse_int backend tx a, nonce_decision parse_int backend tx a =
+     match tx_nonce tx with
+     | Some n => Some (Some n)
+     | None => match reply_value (backend (count_frame a)) with
+               | None => None
+               | Some JNull => Some None
+               | Some v => match dec_hexint parse_int v with Ok n => Some (Some n) | _ => None end
+               end
+     end) /\
+  (forall parse_int backend c, chain_decision parse_int backend c =
+     if (c <? 0)%Z then
+       match reply_value (backend net_version_frame) with
+       | None => None
+       | Some JNull => Some 0%Z
+       | Some v => match dec_hexint parse_int v with
+                   | Ok n => if (Z.of_N n <? 9223372036854775808)%Z then Some (Z.of_N n) else None
+                   | _ => None
+                   end
+       end
+     else Some c).
+Proof. exact (conj (fun rep => eq_refl) (conj (fun parse_int backend tx a => eq_refl) (fun parse_int backend c => eq_refl))). Qed.
+Print Assumptions C09_decisions_mean.
+
+(* 10g (ISSUE 2). Theorem 1 without the open disjunction and without any hypothesis on the wallet: a decodable
+        eth_sendTransaction whose from parses is DECIDED by the request, the backend's reply to the count query and
+        the wallet's answer — submission iff a nonce is had and the wallet signs. *)
+Theorem C09_send_tx_decided :
+  forall parse_int accounts sign_with backend chain rq id p0 rest tx f a,
+    rq_id rq = Some id -> rq_method rq = bs "eth_sendTransaction" -> rq_params rq = p0 :: rest ->
+    decode_transaction parse_int p0 = Ok tx -> tx_from tx = Some f -> dec_address f = Ok a ->
+    match nonce_decision parse_int backend tx a with
+    | None => processRPC parse_int accounts sign_with backend chain (Some rq)
+              = Ok (Some (RPCErrorResponse (Some id) RPCCodeInternalError), true, pre_of tx a)
+    | Some nonce =>
+        match sign_with a (set_nonce tx nonce) chain with
+        | Ok raw => exists resp err,
+                      processRPC parse_int accounts sign_with backend chain (Some rq)
+                      = Ok (Some resp, err, pre_of tx a ++ [raw_frame raw]) /\
+                      (resp, err) = fst (SyncRequest backend (send_raw_request rq raw))
+        | Err _ => processRPC parse_int accounts sign_with backend chain (Some rq)
+                   = Ok (Some (RPCErrorResponse (Some id) RPCCodeInternalError), true, pre_of tx a)
+        | Panic => processRPC parse_int accounts sign_with backend chain (Some rq) = Panic
+        end
+    end.
+Proof. exact send_tx_decided. Qed.
+Print Assumptions C09_send_tx_decided.
+
+(* 10h (ISSUE 3). The backend's answer to the SUBMISSION is relayed under the caller's id: a result; a JSON-RPC
+        error with non-zero code, without and with a data member; an uncooperative answer gives -32603. *)
+Theorem C09_send_tx_relays :
+  forall parse_int accounts sign_with backend chain rq id p0 rest tx f a nonce raw,
+    rq_id rq = Some id -> rq_method rq = bs "eth_sendTransaction" -> rq_params rq = p0 :: rest ->
+    decode_transaction parse_int p0 = Ok tx -> tx_from tx = Some f -> dec_address f = Ok a ->
+    nonce_decision parse_int backend tx a = Some nonce -> sign_with a (set_nonce tx nonce) chain = Ok raw ->
+    (forall echo v,
+       backend (raw_frame raw) = reply_result echo v ->
+       processRPC parse_int accounts sign_with backend chain (Some rq)
+       = Ok (Some (mkResp (bs "2.0") (Some id) (Some v) None [] None), false, pre_of tx a ++ [raw_frame raw])) /\
+    (forall status echo code_text code msg,
+       backend (raw_frame raw) = error_reply status echo code_text msg ->
+       parse_int64 code_text = Some code -> code <> 0%Z ->
+       (status =? 204)%N = false -> is_success status || is_error status = true ->
+       processRPC parse_int accounts sign_with backend chain (Some rq)
+       = Ok (Some (mkResp (bs "2.0") (Some id) None (Some (mkErr code msg true None)) [] None), true,
+             pre_of tx a ++ [raw_frame raw])) /\
+    (forall status echo code_text code msg data,
+       backend (raw_frame raw) = error_reply_data status echo code_text msg data ->
+       parse_int64 code_text = Some code -> code <> 0%Z ->
+       (status =? 204)%N = false -> is_success status || is_error status = true ->
+       processRPC parse_int accounts sign_with backend chain (Some rq)
+       = Ok (Some (mkResp (bs "2.0") (Some id) None (Some (mkErr code msg true (Some data))) [] None), true,
+             pre_of tx a ++ [raw_frame raw])) /\
+    (SyncRequest backend (send_raw_request rq raw) = internal_error (send_raw_request rq raw) ->
+       processRPC parse_int accounts sign_with backend chain (Some rq)
+       = Ok (Some (RPCErrorResponse (Some id) RPCCodeInternalError), true, pre_of tx a ++ [raw_frame raw])).
+Proof. exact send_tx_relays. Qed.
+Print Assumptions C09_send_tx_relays.
+
+(* 10i (ISSUE 3, general). Not only the canonical shapes: ANY JSON answer that decodes (members in any order,
+        extra members, error with data, method / params members) is relayed member for member with only the id
+        replaced by the caller's (an absent result filled with null on success) — for a pass-through request, with
+        the error-with-data case spelt out, and for the submission of an eth_sendTransaction. *)
+Theorem C09_relay_general :
+  forall parse_int accounts sign_with backend chain,
+    (forall rq id s t r,
+       rq_id rq = Some id -> special_method (rq_method rq) = false ->
+       backend (mkFrame (rq_method rq) (rq_params rq)) = BHttp s (BJson t) -> (s =? 204)%N = false -> t <> JNull ->
+       decode_response t zero_response = (r, false) ->
+       (is_success s = true -> error_code_nonzero r = false ->
+        processRPC parse_int accounts sign_with backend chain (Some rq)
+        = Ok (Some (fill_result (set_id r (Some id))), false, [mkFrame (rq_method rq) (rq_params rq)])) /\
+       (is_success s || is_error s = true -> error_code_nonzero r = true ->
+        processRPC parse_int accounts sign_with backend chain (Some rq)
+        = Ok (Some (set_id r (Some id)), true, [mkFrame (rq_method rq) (rq_params rq)])))
+    /\
+    (forall rq id status echo code_text code msg data,
+       rq_id rq = Some id -> special_method (rq_method rq) = false ->
+       backend (mkFrame (rq_method rq) (rq_params rq)) = error_reply_data status echo code_text msg data ->
+       parse_int64 code_text = Some code -> code <> 0%Z ->
+       (status =? 204)%N = false -> is_success status || is_error status = true ->
+       processRPC parse_int accounts sign_with backend chain (Some rq)
+       = Ok (Some (mkResp (bs "2.0") (Some id) None (Some (mkErr code msg true (Some data))) [] None), true,
+             [mkFrame (rq_method rq) (rq_params rq)]))
+    /\
+    (forall rq id p0 rest tx f a nonce raw s t r,
+       rq_id rq = Some id -> rq_method rq = bs "eth_sendTransaction" -> rq_params rq = p0 :: rest ->
+       decode_transaction parse_int p0 = Ok tx -> tx_from tx = Some f -> dec_address f = Ok a ->
+       nonce_decision parse_int backend tx a = Some nonce -> sign_with a (set_nonce tx nonce) chain = Ok raw ->
+       backend (raw_frame raw) = BHttp s (BJson t) -> (s =? 204)%N = false -> t <> JNull ->
+       decode_response t zero_response = (r, false) ->
+       (is_success s = true -> error_code_nonzero r = false ->
+        processRPC parse_int accounts sign_with backend chain (Some rq)
+        = Ok (Some (fill_result (set_id r (Some id))), false, pre_of tx a ++ [raw_frame raw])) /\
+       (is_success s || is_error s = true -> error_code_nonzero r = true ->
+        processRPC parse_int accounts sign_with backend chain (Some rq)
+        = Ok (Some (set_id r (Some id)), true, pre_of tx a ++ [raw_frame raw]))).
+Proof.
+  intros parse_int accounts sign_with backend chain. split; [|split].
+  - exact (relay_passthrough parse_int accounts sign_with backend chain).
+  - exact (relay_passthrough_error_data parse_int accounts sign_with backend chain).
+  - exact (relay_send_tx parse_int accounts sign_with backend chain).
+Qed.
+Print Assumptions C09_relay_general.
+
+(* 10j (ISSUE 5). Theorems 4b and 1c for ANY tree: the request is whatever decode_request makes of the tree the
+        lexer yields (not only the canonical four-member object). *)
+Theorem C09_passthrough_wire :
+  forall parse_int lex accounts sign_with backend chain body order t rq id,
+    (b2n (sniffFirstByte body) =? 91)%N = false ->
+    lex body = Some t -> decode_request t = Ok rq -> rq_id rq = Some id ->
+    special_method (rq_method rq) = false ->
+    exists (resp : rpc_response) (err : bool),
+      rpcHandler parse_int lex accounts sign_with backend chain body order
+      = Ok (if err then 500%N else 200%N, response_tree resp, [[mkFrame (rq_method rq) (rq_params rq)]]) /\
+      (resp, err) = fst (SyncRequest backend rq) /\
+      tree_answers id err (response_tree resp).
+Proof. exact passthrough_wire. Qed.
+Print Assumptions C09_passthrough_wire.
+
+Theorem C09_send_tx_wire :
+  forall parse_int lex accounts sign_with backend chain body order t rq id p0 rest tx f a,
+    (b2n (sniffFirstByte body) =? 91)%N = false ->
+    lex body = Some t -> decode_request t = Ok rq -> rq_id rq = Some id ->
+    rq_method rq = bs "eth_sendTransaction" -> rq_params rq = p0 :: rest ->
+    decode_transaction parse_int p0 = Ok tx -> tx_from tx = Some f -> dec_address f = Ok a ->
+    let refused := Ok (500%N, response_tree (RPCErrorResponse (Some id) RPCCodeInternalError), [pre_of tx a]) in
+    match nonce_decision parse_int backend tx a with
+    | None => rpcHandler parse_int lex accounts sign_with backend chain body order = refused
+    | Some nonce =>
+        match sign_with a (set_nonce tx nonce) chain with
+        | Ok raw => exists (resp : rpc_response) (err : bool),
+                      rpcHandler parse_int lex accounts sign_with backend chain body order
+                      = Ok (if err then 500%N else 200%N, response_tree resp, [pre_of tx a ++ [raw_frame raw]]) /\
+                      (resp, err) = fst (SyncRequest backend (send_raw_request rq raw)) /\
+                      tree_answers id err (response_tree resp)
+        | Err _ => rpcHandler parse_int lex accounts sign_with backend chain body order = refused
+        | Panic => rpcHandler parse_int lex accounts sign_with backend chain body order = Panic
+        end
+    end.
+Proof. exact send_tx_wire. Qed.
+Print Assumptions C09_send_tx_wire.
+
+(* 10k (ISSUE 6). Start, completely: outcome and frames as a function of the configuration and of the backend's
+        reply to net_version; the cases theorem 7 left out (null => 0; not an integer => no start; no usable
+        answer => no start); a result below 2^63 is the chain id AS IT IS, a result of 2^63 or more is refused
+        (the defect found in this round: it was truncated — fixed in /repo by 0c95e98); hence a chain id Start
+        comes up with after discovery is never negative (the hypothesis 0 <= chain of section 9 holds for it);
+        and the link: the chain id Start returns is the one theorem 1 then holds for. *)
+Theorem C09_chain_id_decided :
+  forall parse_int backend,
+    (forall c, Start parse_int backend c
+               = (match chain_decision parse_int backend c with Some z => Ok z | None => Err EStart end,
+                  if (c <? 0)%Z then [net_version_frame] else [])) /\
+    (forall c echo, (c < 0)%Z -> backend net_version_frame = reply_result echo JNull ->
+                    Start parse_int backend c = (Ok 0%Z, [net_version_frame])) /\
+    (forall c echo v, (c < 0)%Z -> backend net_version_frame = reply_result echo v -> v <> JNull ->
+                      (forall n, dec_hexint parse_int v <> Ok n) ->
+                      Start parse_int backend c = (Err EStart, [net_version_frame])) /\
+    (forall c, (c < 0)%Z -> reply_value (backend net_version_frame) = None ->
+               Start parse_int backend c = (Err EStart, [net_version_frame])) /\
+    (forall c echo v n, (c < 0)%Z -> backend net_version_frame = reply_result echo v -> v <> JNull ->
+                        dec_hexint parse_int v = Ok n -> (Z.of_N n < 9223372036854775808)%Z ->
+                        Start parse_int backend c = (Ok (Z.of_N n), [net_version_frame])) /\
+    (forall c echo v n, (c < 0)%Z -> backend net_version_frame = reply_result echo v -> v <> JNull ->
+                        dec_hexint parse_int v = Ok n -> (9223372036854775808 <= Z.of_N n)%Z ->
+                        Start parse_int backend c = (Err EStart, [net_version_frame])) /\
+    (forall c z fr, Start parse_int backend c = (Ok z, fr) -> (0 <= c)%Z \/ (0 <= z < 9223372036854775808)%Z).
+Proof. exact (fun parse_int backend => conj (start_decided parse_int backend) (start_cases parse_int backend)). Qed.
+Print Assumptions C09_chain_id_decided.
+
+Theorem C09_chain_id_linked :
+  forall parse_int backend configured chain frames0,
+    Start parse_int backend configured = (Ok chain, frames0) ->
+    chain_decision parse_int backend configured = Some chain /\
+    ((0 <= configured)%Z -> chain = configured /\ frames0 = []) /\
+    forall accounts sign_with H ecrecover,
+      wallet_sound H ecrecover accounts sign_with chain ->
+      forall rq id p0 rest tx f a,
+      (forall a t c, sign_with a t c <> Panic) ->
+      rq_id rq = Some id -> rq_method rq = bs "eth_sendTransaction" -> rq_params rq = p0 :: rest ->
+      decode_transaction parse_int p0 = Ok tx -> tx_from tx = Some f -> dec_address f = Ok a ->
+      exists resp err frames,
+        processRPC parse_int accounts sign_with backend chain (Some rq) = Ok (Some resp, err, frames) /\
+        rs_id resp = Some id /\
+        ((exists nonce raw,
+            frames = pre_of tx a ++ [raw_frame raw] /\
+            nonce_decision parse_int backend tx a = Some nonce /\
+            In a accounts /\
+            raw_recovers_to H ecrecover raw (Z.to_N chain) a (requested_format tx)
+                            (requested_fields (set_nonce tx nonce)) /\
+            (resp, err) = fst (SyncRequest backend (send_raw_request rq raw)))
+         \/ (frames = pre_of tx a /\ err = true /\ is_proxy_error resp (Some id))).
+Proof. exact start_then_send_tx. Qed.
+Print Assumptions C09_chain_id_linked.
+
+(* 10l (ISSUE 8). Ok, not merely "no panic": with a wallet that returns, the handler returns Ok for every body,
+        backend and completion order; over the file-system wallet (8i / 8j) and with C01's signer (9h) every
+        request of every history is answered with Ok. *)
+Theorem C09_handler_returns_ok :
+  forall parse_int lex accounts sign_with backend chain body order,
+    (forall a t c, sign_with a t c <> Panic) ->
+    (forall t ms, lex body = Some t -> decode_batch t = Ok ms -> Permutation order (seq 0 (length ms))) ->
+    exists r, rpcHandler parse_int lex accounts sign_with backend chain body order = Ok r.
+Proof. exact rpcHandler_ok. Qed.
+Print Assumptions C09_handler_returns_ok.
+
+Theorem C09_fswallet_returns_ok :
+  forall (key doc tsig : Type) (E : W.ext key (transaction * Z) bytes doc tsig) (c : W.config)
+         parse_int lex backend chain fs,
+    WP3.ext_nopanic key (transaction * Z)%type bytes doc tsig E -> WP3.fs_nopanic fs ->
+    (forall h body order, ops_ok h -> order_ok lex body order ->
+       exists r, fs_rpcHandler E c parse_int lex backend chain (fs_state E c fs h) body order = Ok r) /\
+    (forall hist : list request, history_ok lex hist ->
+       Forall (fun x : W.state key * bytes * res http_reply => exists r, snd x = Ok r)
+              (serve E c parse_int lex backend chain (W.init_state key fs) hist)).
+Proof.
+  intros key doc tsig E c parse_int lex backend chain fs Hext Hfs. split.
+  - intros h body order Hops Hord. exact (fs_handler_ok E c parse_int lex backend chain fs h body order Hext Hfs Hops Hord).
+  - intros hist Hh. exact (fs_history_ok E c parse_int lex backend chain fs hist Hext Hfs Hh).
+Qed.
+Print Assumptions C09_fswallet_returns_ok.
+
+Theorem C09_end_to_end_returns_ok :
+  forall (doc tsig : Type) (o : group_ops) (H : bytes -> bytes) (nonce : Z -> bytes -> nat -> Z) (fuel : nat)
+         (E0 : W.ext N (transaction * Z) bytes doc tsig) (c : W.config) parse_int lex backend chain fs (hist : list request),
+    WP3.ext_nopanic N (transaction * Z)%type bytes doc tsig E0 -> WP3.fs_nopanic fs -> history_ok lex hist ->
+    Forall (fun x : W.state N * bytes * res http_reply => exists r, snd x = Ok r)
+           (serve (with_signer o H nonce fuel E0) c parse_int lex backend chain (W.init_state N fs) hist).
+Proof. exact (@end_to_end_ok). Qed.
+Print Assumptions C09_end_to_end_returns_ok.
+
+(* 10m. C09_end_to_end with the hash instantiated by the executable Keccak-256 (Base/Keccak.v): the length law is a
+        theorem there, one hypothesis fewer. *)
+Theorem C09_end_to_end_keccak :
+  forall (doc tsig : Type) (o : group_ops) (nonce : Z -> bytes -> nat -> Z) (fuel : nat)
+         (E0 : W.ext N (transaction * Z) bytes doc tsig) (c : W.config) parse_int lex backend chain,
+    laws o -> (n o < Secp.Model.two256)%Z -> (0 <= chain)%Z ->
+    reader_yields (with_signer o keccak256 nonce fuel E0) (key_in_range o) ->
+    forall fs (hist : list request),
+      let E := with_signer o keccak256 nonce fuel E0 in
+      Forall (fun x : W.state N * bytes * res http_reply =>
+                let '(s, body, reply) := x in
+                (exists h, s = fs_state E c fs h) /\
+                forall status tree traces frames fr,
+                  reply = Ok (status, tree, traces) -> In frames traces -> In fr frames -> is_raw_frame fr = true ->
+                  exists rq, In (Some rq) (members_of lex body) /\
+                    ((rq_method rq = bs "eth_sendRawTransaction" /\ fr = mkFrame (rq_method rq) (rq_params rq)) \/
+                     (rq_method rq = bs "eth_sendTransaction" /\
+                      submission_specified o keccak256 nonce fuel E0 c parse_int backend chain s rq fr)))
+             (serve E c parse_int lex backend chain (W.init_state N fs) hist).
+Proof. exact end_to_end_keccak. Qed.
+Print Assumptions C09_end_to_end_keccak.
+
+(* ---------- non-vacuity of section 10 (and of the theorems the review found without an Example) ---------- *)
+
+Definition r_id : json := JStr (bs "caller-7").
+Definition r_call : json := request_tree (bs "2.0") r_id (bs "eth_blockNumber") [].
+Definition r_rq : rpc_request := mkReq (bs "2.0") (Some r_id) (bs "eth_blockNumber") [].
+Definition r_refused : json := response_tree (RPCErrorResponse (Some r_id) RPCCodeInternalError).
+
+(* 10a/10b: seven uncooperative backends (transport failure; HTTP 500 with an empty / invalid body; 200 with an
+   invalid body; 502 text/html; 200 null; 200 with a result member of... a jsonrpc member of the wrong type; 500
+   with JSON but no error object): each is answered 500 with the -32603 object under the caller's id, one frame.
+   Two degenerate successes (204; 200 text/plain): 200 with result null (10c). *)
+Example C09_uncooperative_nonvacuous :
+  map (fun rep => rpcHandler ex_parse (fun _ => Some r_call) [ex_addr] ex_sign (fun _ => rep) 2022%Z (bs "x") [])
+      [ BConnFail; BHttp 500 BBadJson; BHttp 200 BBadJson; BHttp 502 BNotJson; BHttp 200 (BJson JNull);
+        BHttp 200 (BJson (JObj [(bs "jsonrpc", JNum (bs "2"))]));
+        BHttp 500 (BJson (JObj [(bs "message", JStr (bs "overloaded"))])) ]
+  = repeat (Ok (500%N, r_refused, [[mkFrame (bs "eth_blockNumber") []]])) 7 /\
+  tree_member (bs "error") r_refused = Some (error_tree (mkErr RPCCodeInternalError proxy_text false None)) /\
+  tree_member (bs "result") r_refused = None /\
+  map (fun rep => rpcHandler ex_parse (fun _ => Some r_call) [ex_addr] ex_sign (fun _ => rep) 2022%Z (bs "x") [])
+      [ BHttp 204 BBadJson; BHttp 200 BNotJson ]
+  = repeat (Ok (200%N, JObj [(bs "jsonrpc", JStr []); (bs "id", r_id); (bs "result", JNull)],
+                [[mkFrame (bs "eth_blockNumber") []]])) 2.
+Proof. vm_compute. repeat split; reflexivity. Qed.
+
+(* C09_ids (4) and 10i: a JSON-RPC error on HTTP 500 is relayed under the caller's id — without and with a data
+   member, and with the members in another order plus a foreign member (the general relay, hypotheses shown) *)
+Example C09_error_relay_nonvacuous :
+  processRPC ex_parse [ex_addr] ex_sign (fun _ => error_reply 500 (JNum (bs "000000042")) (bs "-32000") (bs "nonce too low")) 2022%Z (Some r_rq)
+  = Ok (Some (mkResp (bs "2.0") (Some r_id) None (Some (mkErr (-32000) (bs "nonce too low") true None)) [] None), true,
+        [mkFrame (bs "eth_blockNumber") []]) /\
+  processRPC ex_parse [ex_addr] ex_sign
+             (fun _ => error_reply_data 200 JNull (bs "3") (bs "execution reverted") (JStr (bs "0x08c379a0"))) 2022%Z (Some r_rq)
+  = Ok (Some (mkResp (bs "2.0") (Some r_id) None
+                (Some (mkErr 3 (bs "execution reverted") true (Some (JStr (bs "0x08c379a0"))))) [] None), true,
+        [mkFrame (bs "eth_blockNumber") []]) /\
+  let t := JObj [(bs "error", JObj [(bs "data", JArr []); (bs "message", JStr (bs "m")); (bs "code", JNum (bs "-5"))]);
+                 (bs "extra", JBool true); (bs "ID", JNum (bs "9")); (bs "jsonrpc", JStr (bs "2.0"))] in
+  let r := mkResp (bs "2.0") (Some (JNum (bs "9"))) None (Some (mkErr (-5) (bs "m") true (Some (JArr [])))) [] None in
+  decode_response t zero_response = (r, false) /\ error_code_nonzero r = true /\
+  processRPC ex_parse [ex_addr] ex_sign (fun _ => BHttp 400 (BJson t)) 2022%Z (Some r_rq)
+  = Ok (Some (set_id r (Some r_id)), true, [mkFrame (bs "eth_blockNumber") []]).
+Proof. vm_compute. repeat split; reflexivity. Qed.
+
+(* C09_nothing_on_failure (b) over the abstract wallet: a from the wallet does not hold (the hypothesis
+   ~ In a accounts holds) — only the count query, no submission, -32603 under the caller's id *)
+Example C09_nothing_on_failure_nonvacuous :
+  exists tx,
+    decode_transaction ex_parse (w_tx wB []) = Ok tx /\ tx_from tx = Some (JStr (hex0x wB)) /\
+    dec_address (JStr (hex0x wB)) = Ok wB /\ ~ In wB [ex_addr] /\
+    processRPC ex_parse [ex_addr] ex_sign ex_backend 2022%Z
+               (Some (mkReq (bs "2.0") (Some r_id) (bs "eth_sendTransaction") [w_tx wB []]))
+    = Ok (Some (RPCErrorResponse (Some r_id) RPCCodeInternalError), true, [count_frame wB]).
+Proof.
+  eexists. split; [vm_compute; reflexivity|]. split; [reflexivity|]. split; [vm_compute; reflexivity|].
+  split; [|vm_compute; reflexivity].
+  intros [E|[]]. vm_compute in E. discriminate.
+Qed.
+
+(* theorems 1c / 4b and 10g / 10j from the body on the wire: the canonical tree, and a tree with the members in
+   another order, a case-folded name, a duplicate id (the last wins) and NO params member *)
+Example C09_wire_nonvacuous :
+  (exists tree,
+     rpcHandler ex_parse (fun _ => Some (request_tree (bs "2.0") r_id (bs "eth_sendTransaction") [ex_tx]))
+                [ex_addr] ex_sign ex_backend 2022%Z (bs "x") []
+     = Ok (200%N, tree, [[count_frame ex_addr;
+                          raw_frame (spec_signed Eip1559 (mkFields 42 0 0 100 21000 (Some (repeat x22 20)) 0 [xfe; xed]) 2022 1 5 7)]]) /\
+     tree_member (bs "id") tree = Some r_id /\ tree_member (bs "result") tree = Some (JStr (bs "0xhash"))) /\
+  (exists tx, decode_transaction ex_parse ex_tx = Ok tx /\ nonce_decision ex_parse ex_backend tx ex_addr = Some (Some 42%N) /\
+              nonce_decision ex_parse (fun _ => reply_result JNull JNull) tx ex_addr = Some None /\
+              nonce_decision ex_parse (fun _ => BConnFail) tx ex_addr = None /\
+              nonce_decision ex_parse (fun _ => reply_result JNull (JBool true)) tx ex_addr = None) /\
+  rpcHandler ex_parse (fun _ => Some r_call) [ex_addr] ex_sign ex_backend 2022%Z (bs "x") []
+  = Ok (200%N, response_tree (mkResp (bs "2.0") (Some r_id) (Some (JStr (bs "0xhash"))) None [] None),
+        [[mkFrame (bs "eth_blockNumber") []]]) /\
+  let odd := JObj [(bs "METHOD", JStr (bs "eth_chainId")); (bs "id", JNum (bs "1")); (bs "Id", JStr (bs "last"))] in
+  decode_request odd = Ok (mkReq [] (Some (JStr (bs "last"))) (bs "eth_chainId") []) /\
+  rpcHandler ex_parse (fun _ => Some odd) [ex_addr] ex_sign ex_backend 2022%Z (bs "x") []
+  = Ok (200%N, response_tree (mkResp (bs "2.0") (Some (JStr (bs "last"))) (Some (JStr (bs "0xhash"))) None [] None),
+        [[mkFrame (bs "eth_chainId") []]]).
+Proof.
+  split; [eexists; vm_compute; repeat split; reflexivity|].
+  split; [eexists; vm_compute; repeat split; reflexivity|].
+  vm_compute. repeat split; reflexivity.
+Qed.
+
+(* the conclusions "<> Panic" / "= Ok" (8i, 8j, 9h, 10l) are not true by construction: the model DOES panic when
+   the wallet panics, and when the completion order is not a permutation of the members (a slot index out of range) *)
+Example C09_model_can_panic :
+  processRPC ex_parse [ex_addr] (fun _ _ _ => Panic) ex_backend 2022%Z (Some ex_request) = Panic /\
+  rpcHandler ex_parse (fun _ => Some (JArr [r_call])) [ex_addr] ex_sign ex_backend 2022%Z (bs "[x") [3%nat] = Panic /\
+  rpcHandler ex_parse (fun _ => Some (JArr [r_call])) [ex_addr] ex_sign ex_backend 2022%Z (bs "[x") [0%nat]
+  = Ok (200%N, JArr [response_tree (mkResp (bs "2.0") (Some r_id) (Some (JStr (bs "0xhash"))) None [] None)],
+        [[mkFrame (bs "eth_blockNumber") []]]).
+Proof. vm_compute. repeat split; reflexivity. Qed.
+
+(* 10k: null gives 0; 2^63 - 1 is used as it is; 2^63 and 2^64 + 5 are refused (before fix 0c95e98: a negative chain
+   id and 5); a boolean or no answer: the process does not come up *)
+Example C09_chain_id_cases_nonvacuous :
+  Start ex_parse (fun _ => reply_result JNull JNull) (-1)%Z = (Ok 0%Z, [net_version_frame]) /\
+  Start ex_parse (fun _ => reply_result JNull (JStr (bs "0x7fffffffffffffff"))) (-1)%Z
+  = (Ok 9223372036854775807%Z, [net_version_frame]) /\
+  Start ex_parse (fun _ => reply_result JNull (JStr (bs "0x8000000000000000"))) (-1)%Z = (Err EStart, [net_version_frame]) /\
+  Start ex_parse (fun _ => reply_result JNull (JStr (bs "0x10000000000000005"))) (-1)%Z = (Err EStart, [net_version_frame]) /\
+  Start ex_parse (fun _ => reply_result JNull (JBool true)) (-1)%Z = (Err EStart, [net_version_frame]) /\
+  Start ex_parse (fun _ => BHttp 503 BNotJson) (-1)%Z = (Err EStart, [net_version_frame]) /\
+  Start ex_parse (fun _ => BConnFail) 2022%Z = (Ok 2022%Z, []).
+Proof. vm_compute. repeat split; reflexivity. Qed.
